@@ -1142,6 +1142,8 @@ class Interp:
                 return self.set_method(ref, name, args, kwargs)
             c = self.reg.method_contract(self, recv, name, node)
             if c is not None:
+                if c.options.get('binding') == 'staticmethod':
+                    return self.call_contract(c, list(args), kwargs)
                 return self.call_contract(c, [recv] + list(args), kwargs)
             raise Unsupported('method %s of an instance without a contract (line %s)' % (
                 name, getattr(node, 'lineno', '?')))
